@@ -1320,6 +1320,7 @@ func vfHPWalk(t *testing.T, res *vfh.Result, wk vfh.Walk, seed int64, traceFile 
 				// the code left the model: let it finish against a cooperative environment (the monitors keep
 				// judging), then pick the walk up again where the model is idle in the state the code is in
 				stats["free-runs"]++
+				w.prefix = append(w.prefix, map[string]any{"name": "free-run", "arg": "cooperative environment until the call ends"})
 				r.freeRun()
 				w.mu.Lock()
 				w.side, w.rstream, w.trev = "", nil, nil
@@ -1327,7 +1328,7 @@ func vfHPWalk(t *testing.T, res *vfh.Result, wk vfh.Walk, seed int64, traceFile 
 				r.div = false
 				got := w.project(r.svc, r.closed)
 				next := -1
-				for j := i + 1; j < len(wk.Steps) && resync < 3 && got.Pc == "idle"; j++ {
+				for j := i; j < len(wk.Steps) && resync < 3 && got.Pc == "idle"; j++ {
 					var s vfHPState
 					if json.Unmarshal(wk.Steps[j].State, &s) != nil {
 						break
